@@ -114,9 +114,13 @@ def invariant(ctx):
       owner = m
       deps = _method_closure(ctx, ci, m)
       for (p, d) in bad[:3]:
-        # a path that the interpreter followed to its end without meeting anything it does not model, and on which the defect
-        # end - start - len is a non-zero expression, is a proof that the invariant breaks: decided however the method is laid out
-        ctx.ob('INV/%s' % ci.qualname, owner, p.node if p.node is not None else m.node, False, depends=deps, definite=not p.state.problems and not probs, why=
+        # a path that the interpreter followed to its end without meeting anything it does not model, on which the defect
+        # end - start - len is a non-zero expression, and which branches at most once (the interpreter does not correlate the
+        # conditions of several branches, so a longer path may be infeasible - ChordProgression.from_quantized_sequence has
+        # such a path, discharged by `allowed_path` on the arrangement it was confirmed on) is a proof that the invariant
+        # breaks: decided however the method is laid out
+        ctx.ob('INV/%s' % ci.qualname, owner, p.node if p.node is not None else m.node, False, depends=deps,
+               definite=not p.state.problems and not probs and len(p.state.conds) <= 1, why=
                'on a path ending in %s, %s.%s leaves end_step - start_step - len(events) = %r (len=%r, start=%r, end=%r): length and step range disagree' % (
                    p.exit, ci.qualname, n, d, p.state.L, p.state.S, p.state.E), construct='%s.%s keeps end_step - start_step == len (%s exit)' % (ci.qualname, n, p.exit))
       for (node, why) in probs[:3]:
